@@ -45,12 +45,17 @@ def esc_key(text, sep, style="bs"):
     return "".join(out)
 
 
-def render_term(op, term):
+def render_term(op, term, style="bs"):
     if op == "=~":
         for d in "/|_#;@":
             if d not in term:
                 return d + term + d
         raise ValueError("no regex delimiter for %r" % term)
+    if style == "qt" and term and term == term.strip() and all(ch.isalnum() or ch in " ._-'\"" for ch in term):
+        # quote demarcation of the whole term (README: [name="a b"]); the mark is the one the term itself
+        # begins or ends with when there is one, so that an escaped mark sits next to the real one
+        q = term[0] if term[0] in "'\"" else term[-1] if term[-1] in "'\"" else '"'
+        return q + "".join("\\" + ch if ch in "'\"\\" else ch for ch in term) + q      # both marks are escaped inside
     out = []
     for ch in term:
         if ch in "\\[]()'\" =^$%!<>~":
@@ -80,7 +85,7 @@ def render_seg(seg, sep, first, style="bs"):
         a = attr if attr == "." else esc_key(attr, "\0", "bs") if "." not in attr and "/" not in attr else attr
         if inv and style == "q":
             return "[!%s%s%s]" % (a, op, render_term(op, term)), False     # README: both forms are equivalent
-        return "[%s%s%s%s]" % (a, "!" if inv else "", op, render_term(op, term)), False
+        return "[%s%s%s%s]" % (a, "!" if inv else "", op, render_term(op, term, "qt" if style == "qt" else "bs")), False
     if t == "WILD":
         return seg[1], True
     if t == "ALL":
